@@ -8,49 +8,31 @@ namespace Tins.Matching
 theorem slice_length {b : Bytes} {off n : Nat} (h : off + n ≤ b.length) : (slice b off n).length = n := by
   simp [slice]; omega
 
-theorem replyType_ne_unreach (k : ICMPKind) : (k.replyType == 3) = false := by
-  cases k <;> decide
-
-/-- the mirrored reply of an IPv4 request is never an ICMP destination-unreachable -/
-theorem mirror_not_quote (hdr : Bytes) (r : List SLayer) (hw : hdr.length = 20) :
-    quotesRequest hdr (serR (.ip4 [0, 0, 0, 0, 0, 0, 0, 64] [0, 0] (slice hdr 16 4) (slice hdr 12 4) :: mirror r)) 20 = false := by
-  have l1 : (slice hdr 16 4).length = 4 := slice_length (by omega)
-  have l2 : (slice hdr 12 4).length = 4 := slice_length (by omega)
-  unfold quotesRequest
-  simp only [serR]
-  have h9 : (0x45 :: ([0, 0, 0, 0, 0, 0, 0, 64] ++ (protoR (mirror r) :: ([0, 0] ++ (slice hdr 16 4 ++ (slice hdr 12 4 ++ serR (mirror r))))))).getD 9 0
-      = protoR (mirror r) := by simp [List.getD]
-  rw [h9]
-  cases r with
-  | nil => simp [mirror, protoR]
-  | cons l r' =>
-    cases l <;> try (simp [mirror, protoR]; done)
-    case icmp k id seq =>
-      have h20 : (0x45 :: ([0, 0, 0, 0, 0, 0, 0, 64] ++ (protoR (mirror (.icmp k id seq :: r')) :: ([0, 0] ++ (slice hdr 16 4 ++
-          (slice hdr 12 4 ++ serR (mirror (.icmp k id seq :: r')))))))).getD 20 0 = k.replyType := by
-        simp [List.getD, List.getElem?_append_right, l1, l2, mirror, serR]
-      rw [h20, replyType_ne_unreach]
-      simp
-
 theorem shape_mirror : ∀ (r : List SLayer), wfReq r = true → shape r (mirror r) = true
   | [], _ => by simp [shape]
   | l :: r, h => by
     cases l with
     | payload => simp [shape]
-    | dot3 s d => simp [wfReq] at h
-    | radiotap => simp [wfReq] at h
     | eth s d =>
+      simp only [wfReq, Bool.and_eq_true, beq_iff_eq] at h
+      simp [mirror, shape, h.1.1, h.1.2, shape_mirror r h.2]
+    | dot3 s d =>
       simp only [wfReq, Bool.and_eq_true, beq_iff_eq] at h
       simp [mirror, shape, h.1.1, h.1.2, shape_mirror r h.2]
     | vlan t =>
       simp only [wfReq, Bool.and_eq_true, beq_iff_eq] at h
       simp [mirror, shape, h.1, shape_mirror r h.2]
+    | loopback f =>
+      simp only [wfReq, Bool.and_eq_true, beq_iff_eq] at h
+      simp [mirror, shape, h.1, shape_mirror r h.2]
+    | radiotap =>
+      simp only [wfReq] at h
+      simp [mirror, shape, shape_mirror r h]
     | ip4 hdr =>
       simp only [wfReq, Bool.and_eq_true, beq_iff_eq] at h
       have l1 : (slice hdr 16 4).length = 4 := slice_length (by omega)
       have l2 : (slice hdr 12 4).length = 4 := slice_length (by omega)
-      simp only [mirror, shape, mirror_not_quote hdr r h.1, shape_mirror r h.2, l1, l2]
-      decide
+      simp [mirror, shape, shape_mirror r h.2, l1, l2]
     | ip6 s d =>
       simp only [wfReq, Bool.and_eq_true, beq_iff_eq] at h
       simp [mirror, shape, h.1.1, h.1.2, shape_mirror r h.2]
@@ -69,35 +51,121 @@ theorem shape_mirror : ∀ (r : List SLayer), wfReq r = true → shape r (mirror
     | dns id =>
       simp only [wfReq, beq_iff_eq] at h
       simp [mirror, shape, h]
+    | bootp xid =>
+      simp only [wfReq, beq_iff_eq] at h
+      simp only [mirror, shape, h, List.length_replicate, List.length_cons, List.length_nil]
+      decide
+    | dhcpv6 hdr =>
+      simp only [wfReq, Bool.and_eq_true, beq_iff_eq, Bool.not_eq_true'] at h
+      have l1 : (slice hdr 1 3).length = 3 := slice_length (by omega)
+      simp only [mirror, shape, h.2, l1, Bool.not_false, beq_self_eq_true, Bool.and_self]
+    | arp spa tpa =>
+      simp only [wfReq, Bool.and_eq_true, beq_iff_eq] at h
+      simp [mirror, shape, h.1, h.2]
 
-theorem verdictR_mirror : ∀ (r : List SLayer), wfReq r = true → verdictR r (mirror r) = .accept
-  | [], _ => by simp [verdictR]
+/-- the canonical mirrored reply is a mirrored reply -/
+theorem isMirror_mirror : ∀ (r : List SLayer), wfReq r = true → isMirror r (mirror r) = true
+  | [], _ => by simp [isMirror]
   | l :: r, h => by
     cases l with
-    | payload => simp [verdictR]
-    | dot3 s d => simp [wfReq] at h
-    | radiotap => simp [wfReq] at h
+    | payload => simp [isMirror]
     | eth s d =>
       simp only [wfReq, Bool.and_eq_true] at h
-      simp [mirror, verdictR, field, verdictR_mirror r h.2]
+      simp [mirror, isMirror, isMirror_mirror r h.2]
+    | dot3 s d =>
+      simp only [wfReq, Bool.and_eq_true] at h
+      simp [mirror, isMirror, isMirror_mirror r h.2]
     | vlan t =>
       simp only [wfReq, Bool.and_eq_true] at h
-      simp [mirror, verdictR, field, verdictR_mirror r h.2]
+      simp [mirror, isMirror, isMirror_mirror r h.2]
+    | loopback f =>
+      simp only [wfReq, Bool.and_eq_true] at h
+      simp [mirror, isMirror, isMirror_mirror r h.2]
+    | radiotap =>
+      simp only [wfReq] at h
+      simp [mirror, isMirror, isMirror_mirror r h]
     | ip4 hdr =>
       simp only [wfReq, Bool.and_eq_true] at h
-      simp [mirror, verdictR, field, verdictR_mirror r h.2]
+      simp [mirror, isMirror, isMirror_mirror r h.2]
     | ip6 s d =>
       simp only [wfReq, Bool.and_eq_true] at h
-      simp [mirror, verdictR, field, verdictR_mirror r h.2]
+      simp [mirror, isMirror, isMirror_mirror r h.2]
     | tcp sp dp =>
       simp only [wfReq, Bool.and_eq_true] at h
-      simp [mirror, verdictR, field, verdictR_mirror r h.2]
+      simp [mirror, isMirror, isMirror_mirror r h.2]
     | udp sp dp =>
       simp only [wfReq, Bool.and_eq_true, Bool.not_eq_true'] at h
-      simp [mirror, verdictR, field, verdictR_mirror r h.2, h.1.2]
-    | icmp k id seq => simp [mirror, verdictR, field]
-    | icmp6echo id seq => simp [mirror, verdictR, field]
-    | dns id => simp [mirror, verdictR, field]
+      simp [mirror, isMirror, isMirror_mirror r h.2, h.1.2]
+    | icmp k id seq => simp [mirror, isMirror]
+    | icmp6echo id seq => simp [mirror, isMirror]
+    | dns id => simp [mirror, isMirror]
+    | bootp xid => simp [mirror, isMirror]
+    | dhcpv6 hdr => simp [mirror, isMirror, isRelayType]
+    | arp spa tpa => simp [mirror, isMirror]
+
+/-- every mirrored reply — whatever its unmatched fields, options, extension headers and payload — gets the
+    verdict `accept` -/
+theorem verdictR_isMirror : ∀ (r : List SLayer) (m : List RLayer), isMirror r m = true → verdictR r m = .accept
+  | [], m, _ => by simp [verdictR]
+  | l :: r, m, h => by
+    cases m with
+    | nil => cases l <;> simp [isMirror, verdictR] at h ⊢
+    | cons ml m' =>
+      cases l <;> cases ml <;> try (simp [isMirror] at h; done)
+      all_goals try (simp [verdictR]; done)
+      case eth.eth s d rd rs =>
+        simp only [isMirror, Bool.and_eq_true] at h
+        simp [verdictR, field, h.1.1, h.1.2, verdictR_isMirror r m' h.2]
+      case dot3.dot3 s d rd rs l =>
+        simp only [isMirror, Bool.and_eq_true] at h
+        simp [verdictR, field, h.1.1, h.1.2, verdictR_isMirror r m' h.2]
+      case vlan.vlan tci tp t =>
+        simp only [isMirror, Bool.and_eq_true] at h
+        simp [verdictR, field, h.1, verdictR_isMirror r m' h.2]
+      case loopback.loopback f rf =>
+        simp only [isMirror, Bool.and_eq_true] at h
+        simp [verdictR, h.1, verdictR_isMirror r m' h.2]
+      case radiotap.radiotap vp body =>
+        simp only [isMirror] at h
+        simp [verdictR, verdictR_isMirror r m' h]
+      case ip4.ip4 hdr pre ck rs rd opts =>
+        simp only [isMirror, Bool.or_eq_true, Bool.and_eq_true] at h
+        simp only [verdictR]
+        cases hq : quotes hdr m'
+        · rcases h with h | h
+          · rw [hq] at h; exact absurd h (by decide)
+          · simp [field, h.1.1, h.1.2, verdictR_isMirror r m' h.2]
+        · simp
+      case ip6.ip6 s d pre hl rs rd exts =>
+        simp only [isMirror, Bool.and_eq_true] at h
+        simp [verdictR, field, h.1.1, h.1.2, verdictR_isMirror r m' h.2]
+      case tcp.tcp sp dp rsp rdp sa x2 tl opts =>
+        simp only [isMirror, Bool.and_eq_true] at h
+        simp [verdictR, field, h.1.1, h.1.2, verdictR_isMirror r m' h.2]
+      case udp.udp sp dp rsp rdp lc =>
+        simp only [isMirror, Bool.and_eq_true, Bool.not_eq_true'] at h
+        simp [verdictR, field, h.1.1.1, h.1.1.2, h.1.2, verdictR_isMirror r m' h.2]
+      case icmp.icmp k id seq t cc rid rseq data =>
+        simp only [isMirror, Bool.and_eq_true] at h
+        simp [verdictR, field, h.1.1, h.1.2, h.2]
+      case icmp6echo.icmp6 id seq t cc rid rseq data =>
+        simp only [isMirror, Bool.and_eq_true] at h
+        simp [verdictR, field, h.1.1, h.1.2, h.2]
+      case dns.dns id rid rest =>
+        simp only [isMirror] at h
+        simp [verdictR, field, h]
+      case bootp.bootp xid pre rx rest =>
+        simp only [isMirror] at h
+        simp [verdictR, field, h]
+      case dhcpv6.dhcpv6 hdr t rx opts =>
+        simp only [isMirror, Bool.and_eq_true] at h
+        simp [verdictR, field, h.1, h.2]
+      case arp.arp spa tpa pre rspa tha rtpa trail =>
+        simp only [isMirror, Bool.and_eq_true] at h
+        simp [verdictR, field, h.1, h.2]
+
+theorem verdictR_mirror (r : List SLayer) (h : wfReq r = true) : verdictR r (mirror r) = .accept :=
+  verdictR_isMirror r (mirror r) (isMirror_mirror r h)
 
 /-! ### a differing matched field forces `reject` -/
 
@@ -126,22 +194,14 @@ theorem differs_reject : ∀ (r : List SLayer) (m : List RLayer), shape r m = tr
         · exact field_reject (Or.inl ⟨beq_false_of_bne h1, rfl⟩)
         · exact field_reject (Or.inr (field_reject (Or.inl ⟨beq_false_of_bne h2, hg⟩)))
         · exact field_reject (Or.inr (field_reject (Or.inr (differs_reject r m' h.2 h3))))
-      case vlan.vlan tci t =>
+      case vlan.vlan tci tp t =>
         simp only [shape, Bool.and_eq_true] at h
         simp only [matchedFieldDiffers, Bool.or_eq_true] at hd
         simp only [verdictR]
         rcases hd with h1 | h3
         · exact field_reject (Or.inl ⟨beq_false_of_bne h1, rfl⟩)
         · exact field_reject (Or.inr (differs_reject r m' h.2 h3))
-      case ip4.ip4 hdr pre ck rs rd =>
-        simp only [shape, Bool.and_eq_true] at h
-        simp only [matchedFieldDiffers, Bool.or_eq_true, Bool.and_eq_true] at hd
-        simp only [verdictR]
-        rcases hd with (⟨hz, h1⟩ | ⟨hg, h2⟩) | h3
-        · exact field_reject (Or.inl ⟨beq_false_of_bne h1, hz⟩)
-        · exact field_reject (Or.inr (field_reject (Or.inl ⟨beq_false_of_bne h2, hg⟩)))
-        · exact field_reject (Or.inr (field_reject (Or.inr (differs_reject r m' h.2 h3))))
-      case ip6.ip6 s d pre hl rs rd =>
+      case dot3.dot3 s d rd rs l =>
         simp only [shape, Bool.and_eq_true] at h
         simp only [matchedFieldDiffers, Bool.or_eq_true, Bool.and_eq_true] at hd
         simp only [verdictR]
@@ -149,7 +209,39 @@ theorem differs_reject : ∀ (r : List SLayer) (m : List RLayer), shape r m = tr
         · exact field_reject (Or.inl ⟨beq_false_of_bne h1, rfl⟩)
         · exact field_reject (Or.inr (field_reject (Or.inl ⟨beq_false_of_bne h2, hg⟩)))
         · exact field_reject (Or.inr (field_reject (Or.inr (differs_reject r m' h.2 h3))))
-      case tcp.tcp sp dp rsp rdp sa tl =>
+      case loopback.loopback f rf =>
+        simp only [shape, Bool.and_eq_true] at h
+        simp only [matchedFieldDiffers, Bool.and_eq_true] at hd
+        simp only [verdictR, hd.1, if_true]
+        exact differs_reject r m' h.2 hd.2
+      case radiotap.radiotap vp body =>
+        simp only [shape, Bool.and_eq_true] at h
+        simp only [matchedFieldDiffers] at hd
+        simp only [verdictR]
+        exact differs_reject r m' h.2 hd
+      case ip4.ip4 hdr pre ck rs rd opts =>
+        simp only [shape, Bool.and_eq_true, Bool.or_eq_true] at h
+        simp only [matchedFieldDiffers, Bool.or_eq_true, Bool.and_eq_true] at hd
+        obtain ⟨hq, hd⟩ := hd
+        have hq : quotes hdr m' = false := by simpa using hq
+        have hs : shape r m' = true := by
+          rcases h.2 with h' | h'
+          · rw [hq] at h'; exact absurd h' (by decide)
+          · exact h'
+        simp only [verdictR, hq, Bool.false_eq_true, if_false]
+        rcases hd with (⟨hz, h1⟩ | ⟨hg, h2⟩) | h3
+        · exact field_reject (Or.inl ⟨beq_false_of_bne h1, hz⟩)
+        · exact field_reject (Or.inr (field_reject (Or.inl ⟨beq_false_of_bne h2, hg⟩)))
+        · exact field_reject (Or.inr (field_reject (Or.inr (differs_reject r m' hs h3))))
+      case ip6.ip6 s d pre hl rs rd exts =>
+        simp only [shape, Bool.and_eq_true] at h
+        simp only [matchedFieldDiffers, Bool.or_eq_true, Bool.and_eq_true] at hd
+        simp only [verdictR]
+        rcases hd with (h1 | ⟨hg, h2⟩) | h3
+        · exact field_reject (Or.inl ⟨beq_false_of_bne h1, rfl⟩)
+        · exact field_reject (Or.inr (field_reject (Or.inl ⟨beq_false_of_bne h2, hg⟩)))
+        · exact field_reject (Or.inr (field_reject (Or.inr (differs_reject r m' h.2 h3))))
+      case tcp.tcp sp dp rsp rdp sa x2 tl opts =>
         simp only [shape, Bool.and_eq_true] at h
         simp only [matchedFieldDiffers, Bool.or_eq_true] at hd
         simp only [verdictR]
@@ -188,5 +280,21 @@ theorem differs_reject : ∀ (r : List SLayer) (m : List RLayer), shape r m = tr
         simp only [matchedFieldDiffers] at hd
         simp only [verdictR]
         exact field_reject (Or.inl ⟨beq_false_of_bne hd, rfl⟩)
+      case bootp.bootp xid pre rx rest =>
+        simp only [matchedFieldDiffers] at hd
+        simp only [verdictR]
+        exact field_reject (Or.inl ⟨beq_false_of_bne hd, rfl⟩)
+      case dhcpv6.dhcpv6 hdr t rx opts =>
+        simp only [matchedFieldDiffers, Bool.or_eq_true] at hd
+        simp only [verdictR]
+        rcases hd with h1 | h2
+        · exact field_reject (Or.inl ⟨by simp [h1], rfl⟩)
+        · exact field_reject (Or.inr (field_reject (Or.inl ⟨beq_false_of_bne h2, rfl⟩)))
+      case arp.arp spa tpa pre rspa tha rtpa trail =>
+        simp only [matchedFieldDiffers, Bool.or_eq_true] at hd
+        simp only [verdictR]
+        rcases hd with h1 | h2
+        · exact field_reject (Or.inl ⟨beq_false_of_bne h1, rfl⟩)
+        · exact field_reject (Or.inr (field_reject (Or.inl ⟨beq_false_of_bne h2, rfl⟩)))
 
 end Tins.Matching
